@@ -460,6 +460,12 @@ class SuperSpeedStreamInEndpoint(Elaboratable):
                         # If neither of the above conditions are true; we now don't have enough data to send.
                         # We'll wait for enough data to transmit.
                         with m.Else():
+
+                            # If this ACK also requested the next packet, tell the host we don't have one.
+                            with m.If(is_in_token):
+                                m.d.comb += handshakes_out.send_nrdy  .eq(1)
+                                m.d.ss   += erdy_required             .eq(1)
+
                             m.next = "WAIT_FOR_DATA"
 
         return m
